@@ -35,6 +35,15 @@ type c20Fixture struct {
 	fc *layers.FC    // shared layer with tracked parameters
 	x  tensor.Tensor // shared untracked input [2,2]
 	t1 tensor.Tensor // shared untracked targets [4]
+	// component objects shared by the goroutines (one model object serving several requests)
+	relu    *activations.Relu
+	lrelu   *activations.LeakyRelu
+	sigmoid *activations.Sigmoid
+	tanh    *activations.Tanh
+	softmax *activations.Softmax
+	mse     *losses.MSE
+	bce     *losses.BCE
+	ce      *losses.CE
 }
 
 func c20NewFixture() *c20Fixture {
@@ -50,6 +59,9 @@ func c20NewFixture() *c20Fixture {
 		panic("HARNESS: " + err.Error())
 	}
 	f.fc = fc
+	f.relu, f.lrelu, f.sigmoid, f.tanh = activations.NewRelu(), activations.NewLeakyRelu(nil), activations.NewSigmoid(), activations.NewTanh()
+	f.softmax, _ = activations.NewSoftmax(&activations.SoftmaxConfig{Dim: 0})
+	f.mse, f.bce, f.ce = losses.NewMSE(), losses.NewBCE(), losses.NewCE()
 	return f
 }
 
@@ -236,6 +248,64 @@ func c20Bodies() []c20Body {
 			c, e2 := b.Mul(f.fc.Weight)
 			return []string{obsT(b, e1), obsT(c, e2)}
 		}},
+		{name: "sharedlayers", run: func(f *c20Fixture, y func()) []string {
+			// the SAME activation / loss objects are used by every goroutine, with inputs of different shapes
+			var out []string
+			v := rt.Make(&ref.T{Shape: []int{3}, V: []float64{-1, 0.5, 2}}, false)
+			for _, in := range []tensor.Tensor{f.u, v, f.p} {
+				y()
+				r, err := f.relu.Forward(in)
+				out = append(out, obsT(r, err))
+				y()
+				r, err = f.lrelu.Forward(in)
+				out = append(out, obsT(r, err))
+				y()
+				r, err = f.sigmoid.Forward(in)
+				out = append(out, obsT(r, err))
+				r, err = f.tanh.Forward(in)
+				out = append(out, obsT(r, err))
+				y()
+				r, err = f.softmax.Forward(in)
+				out = append(out, obsT(r, err))
+			}
+			y()
+			pr, _ := f.sigmoid.Forward(v)
+			l1, e1 := f.mse.Compute(pr, v)
+			l2, e2 := f.bce.Compute(pr, v)
+			y()
+			p2, _ := f.softmax.Forward(f.x)
+			l3, e3 := f.ce.Compute(p2, f.u)
+			return append(out, obsT(l1, e1), obsT(l2, e2), obsT(l3, e3))
+		}},
+		{name: "sharedlayers2", run: func(f *c20Fixture, y func()) []string {
+			// same shared objects, other shapes and another order
+			var out []string
+			m := rt.Make(&ref.T{Shape: []int{1, 3, 1}, V: []float64{0.25, -3, 1}}, true)
+			for _, in := range []tensor.Tensor{m, f.x} {
+				y()
+				r, err := f.softmax.Forward(in)
+				out = append(out, obsT(r, err))
+				y()
+				r, err = f.tanh.Forward(in)
+				out = append(out, obsT(r, err))
+				r, err = f.sigmoid.Forward(in)
+				out = append(out, obsT(r, err))
+				y()
+				r, err = f.lrelu.Forward(in)
+				out = append(out, obsT(r, err))
+				y()
+				r, err = f.relu.Forward(in)
+				out = append(out, obsT(r, err))
+			}
+			y()
+			fl, _ := m.Flatten(0)
+			pr, _ := f.sigmoid.Forward(fl)
+			l1, e1 := f.bce.Compute(pr, fl)
+			l2, e2 := f.mse.Compute(pr, fl)
+			y()
+			e3 := tensor.BackPropagate(l2)
+			return append(out, obsT(l1, e1), obsT(l2, e2), fmt.Sprint(e3), obsT(m.Gradient(), nil))
+		}},
 		{name: "mathops", run: func(f *c20Fixture, y func()) []string {
 			var out []string
 			for _, op := range []ref.Op{{K: "Scale", F: -1.5}, {K: "Pow", F: 2}, {K: "Exp"}, {K: "Sin"}, {K: "Cos"}, {K: "Tan"}, {K: "Sinh"}, {K: "Cosh"}, {K: "Tanh"}} {
@@ -317,7 +387,7 @@ func c20Scenarios(thorough bool) []c20Scenario {
 		}
 	}
 	if thorough {
-		for _, tr := range [][]int{{0, 1, 6}, {4, 5, 9}, {6, 7, 8}, {2, 3, 12}, {12, 12, 12}, {4, 6, 6}, {10, 11, 8}} {
+		for _, tr := range [][]int{{0, 1, 6}, {4, 5, 9}, {6, 7, 8}, {2, 3, 14}, {14, 14, 14}, {4, 6, 6}, {12, 13, 8}, {10, 11, 10}} {
 			out = append(out, c20Scenario{tr})
 		}
 	}
@@ -580,6 +650,16 @@ func c20Post(tier string, seed int64, m *core.Part) {
 		tail := string(out)
 		if len(tail) > 3000 {
 			tail = tail[len(tail)-3000:]
+		}
+		if strings.Contains(string(out), "fatal error:") || strings.Contains(string(out), "panic:") || strings.Contains(string(out), "DATA RACE") {
+			// the library crashed when used by several goroutines at once (e.g.
+			// "fatal error: concurrent map writes"): a violation, not a harness problem
+			dir := filepath.Join(core.VerifDir, "replays", "C20")
+			os.MkdirAll(dir, 0o755)
+			path := filepath.Join(dir, "race_pass_crash.txt")
+			os.WriteFile(path, out, 0o644)
+			m.Violations = append(m.Violations, core.ViolationRec{CaseID: "racepass", Detail: fmt.Sprintf("the free-running pass (thread bodies on real goroutines) crashed: %v\n%s", err, tail), Replay: path})
+			return
 		}
 		m.Broken = fmt.Sprintf("race pass did not complete: %v\n%s", err, tail)
 		return
